@@ -80,6 +80,15 @@ theorem convert_render_iso (r : IsoR) (wf : r.WF) (hfrac : fracSmallestOnly r.nu
 
 example : convert [' ', 'P', '0', 'Y', '1', 'D', 'T', '0', '2', 'H', '3', 'M', '4', ',', '5', '0', 'S', ' '] = .ok (187569 / 2) := by decide +kernel
 
+/-- the fraction may sit in whichever unit is the smallest one present, with either mark, in both
+    formats (instances of the two theorems above for the sub-cases d, h, m) -/
+example : convert ['1', ',', '5', 'd'] = .ok 129600 := by decide +kernel
+example : convert ['1', 'd', ' ', '2', '.', '5', 'H'] = .ok 95400 := by decide +kernel
+example : convert ['1', 'h', '1', ',', '5', 'm'] = .ok 3690 := by decide +kernel
+example : convert ['P', '1', '.', '5', 'D'] = .ok 129600 := by decide +kernel
+example : convert ['P', 'T', '1', ',', '5', 'H'] = .ok 5400 := by decide +kernel
+example : convert ['P', 'T', '1', '.', '5', 'M'] = .ok 90 := by decide +kernel
+
 /-! ### rejections -/
 
 /-- an empty or blank string is refused ("at least one element must be present") -/
@@ -206,31 +215,99 @@ theorem reject_stray_characters (cs : List Char) (c : Char) (hc : c ∈ cs) (hba
 example : ['-', '+', 'e', 'E', '_', 'x', 'W', 'p', 't', 'y', ':', '/', '１', '\u00a0', '\u017f', '\u212a'].all
     (fun c => !allowedChar c) = true := by decide
 
-/-- a unit that is repeated or comes after a smaller one (`1h2h`, `3m1h`, `5s1d`, ...) is refused, for
-    all numbers (fractions included) -/
-theorem reject_repeated_or_misordered_units (a b : NumText) (wa : a.WF) (wb : b.WF) (u v : Char)
-    (hu : isUnitLetter u = true) (hv : isUnitLetter v = true) (hr : unitRank v ≤ unitRank u) :
-    convert (a.text ++ u :: (b.text ++ [v])) = .error .syntax := by
-  have hiso := matchIso_digit a wa (u :: (b.text ++ [v]))
-  have htrad : matchTrad (a.text ++ u :: (b.text ++ [v])) = none := by
-    have sa := fun R => NumText.text_skipWs a wa R
-    have sb := fun R => NumText.text_skipWs b wb R
-    have nb := fun R => text_ne_nil b wb R
-    have ga := fun isU c R hc => optGroup_cons isU a wa c R hc
-    have gb := fun isU c R hc => optGroup_cons isU b wb c R hc
-    have la := fun isU c R hc => optGroupLast_cons isU a wa c R hc
-    have lb := fun isU c R hc => optGroupLast_cons isU b wb c R hc
-    simp only [isUnitLetter, Bool.or_eq_true, beq_iff_eq] at hu hv
-    rcases hu with ((rfl | rfl) | rfl) | rfl <;> rcases hv with ((rfl | rfl) | rfl) | rfl <;>
-      first
-      | (exfalso; revert hr; decide)
-      | (unfold matchTrad
-         simp [sa, sb, ga, gb, la, lb, nb, isUnitLetter, isD, isH, isM, isS, skipWs, isWs])
-  unfold convert
-  rw [htrad, hiso]
+/-- **repeated or misordered units, traditional format**: after any well-formed beginning `r` (pieces
+    with their letters, either case, any whitespace) a further piece of a unit `v` such that `v` itself
+    or a smaller unit has been used already (`1h2h`, `3 M 1 h`, `1d 5s 2D` …) makes the string invalid,
+    whatever follows it. -/
+theorem reject_repeated_or_misordered_units (r : TradP) (wf : r.WF) (v : TUnit)
+    (hfrom : r.hasFrom v = true) (pb : Piece) (wb : pb.WF) (hb : pb.bare = false) (rest : List Char) :
+    convert (r.text (pb.text v.lo v.up ++ rest)) = .error .syntax := by
+  obtain ⟨h1, h2⟩ := matchTrad_misordered r wf v hfrom pb wb hb rest
+  exact convert_syntax _ h1 h2
+
+/-- **ISO format**: after any well-formed beginning `P…` or `P…T…` a further `number designator` group
+    whose designator `V` may not follow any more – `V` or a later designator of the same part has been
+    used (`P1D2D`, `PT3M1H`, `P1M2Y`), or `V` does not belong to that part at all (`P1H`, `PT1D`,
+    `P1DT2Y`, `P1T`) – makes the string invalid, whatever follows it. -/
+theorem reject_misplaced_designator_iso (r : IsoP) (wf : r.WF) (b : NumText) (wb : b.WF) (V : Char)
+    (hV : numEnd V = true) (hcl : r.Closed V) (rest : List Char) :
+    convert (r.text (b.text ++ V :: rest)) = .error .syntax := by
+  have hT : matchTrad (r.text (b.text ++ V :: rest)) = none := matchTrad_P _ _ wf.1
+  refine convert_syntax _ hT ?_
+  obtain ⟨hd, hne⟩ := headSat_digit_text b wb (V :: rest)
+  have blk : ∀ U : Char, V ≠ U → IBlocked U (b.text ++ V :: rest) := fun U h =>
+    iblocked_text U V hV (by simpa using h) b wb rest
+  apply matchIso_bad_tail r wf _ hd hne
+  · intro ht
+    simp only [IsoP.Closed, ht, Bool.false_eq_true, ↓reduceIte, Bool.or_eq_true] at hcl
+    obtain ⟨c1, c2, c3⟩ := hcl
+    refine ⟨?_, ?_, ?_⟩
+    · by_cases h : V = 'Y'
+      · have := c1 h; grind
+      · exact Or.inr (Or.inr (Or.inr (blk _ h)))
+    · by_cases h : V = 'M'
+      · have := c2 h; grind
+      · exact Or.inr (Or.inr (blk _ h))
+    · by_cases h : V = 'D'
+      · exact Or.inl (c3 h)
+      · exact Or.inr (blk _ h)
+  · intro ht
+    simp only [IsoP.Closed, ht, ↓reduceIte, Bool.or_eq_true] at hcl
+    obtain ⟨c1, c2, c3⟩ := hcl
+    refine ⟨?_, ?_, ?_⟩
+    · by_cases h : V = 'H'
+      · have := c1 h; grind
+      · exact Or.inr (Or.inr (Or.inr (blk _ h)))
+    · by_cases h : V = 'M'
+      · have := c2 h; grind
+      · exact Or.inr (Or.inr (blk _ h))
+    · by_cases h : V = 'S'
+      · exact Or.inl (c3 h)
+      · exact Or.inr (blk _ h)
+
+/-- **a second decimal mark** directly behind a number that has a fraction already (`1.5.5`, `1,5,5s`,
+    `2h 3.4.5m`), after any well-formed beginning, whatever follows – traditional format -/
+theorem reject_second_decimal_mark (r : TradP) (wf : r.WF) (w : List Char) (hw : allWs w)
+    (t : NumText) (wt : t.WF) (hfr : t.fr.isSome = true) (c : Char) (hc : isMark c = true)
+    (rest : List Char) :
+    convert (r.text (w ++ (t.text ++ c :: rest))) = .error .syntax := by
+  obtain ⟨h1, h2⟩ := matchTrad_second_mark r wf w hw t wt hfr c hc rest
+  exact convert_syntax _ h1 h2
+
+/-- the same in the ISO format (`PT1.5.5S`, `P1DT2,5,0H`) -/
+theorem reject_second_decimal_mark_iso (r : IsoP) (wf : r.WF) (t : NumText) (wt : t.WF)
+    (hfr : t.fr.isSome = true) (c : Char) (hc : isMark c = true) (rest : List Char) :
+    convert (r.text (t.text ++ c :: rest)) = .error .syntax := by
+  have hT : matchTrad (r.text (t.text ++ c :: rest)) = none := matchTrad_P _ _ wf.1
+  refine convert_syntax _ hT ?_
+  obtain ⟨hd, hne⟩ := headSat_digit_text t wt (c :: rest)
+  have blk : ∀ U ∈ ['Y', 'M', 'D', 'H', 'S'], IBlocked U (t.text ++ c :: rest) := by
+    intro U hU
+    apply iblocked_second_mark U t wt hfr c hc _ rest
+    simp only [isMark, Bool.or_eq_true, beq_iff_eq] at hc
+    simp only [List.mem_cons, List.not_mem_nil, or_false] at hU
+    rcases hc with h | h <;> subst h <;> rcases hU with rfl | rfl | rfl | rfl | rfl <;> decide
+  apply matchIso_bad_tail r wf _ hd hne
+  · intro _
+    exact ⟨Or.inr (Or.inr (Or.inr (blk _ (by simp)))), Or.inr (Or.inr (blk _ (by simp))),
+      Or.inr (blk _ (by simp))⟩
+  · intro _
+    exact ⟨Or.inr (Or.inr (Or.inr (blk _ (by simp)))), Or.inr (Or.inr (blk _ (by simp))),
+      Or.inr (blk _ (by simp))⟩
+
+/-- a sign anywhere makes the string invalid (durations are unsigned) -/
+theorem reject_sign (cs : List Char) (h : '-' ∈ cs ∨ '+' ∈ cs) : convert cs = .error .syntax := by
+  rcases h with h | h
+  · exact reject_stray_characters cs '-' h (by decide)
+  · exact reject_stray_characters cs '+' h (by decide)
 
 example : convert ['3', 'm', '1', 'h'] = .error .syntax := by decide +kernel
 example : convert ['1', 'h', '2', 'h'] = .error .syntax := by decide +kernel
+example : convert ['1', 'd', ' ', '5', 'S', ' ', '2', 'D'] = .error .syntax := by decide +kernel
+example : convert ['P', 'T', '3', 'M', '1', 'H'] = .error .syntax := by decide +kernel
+example : convert ['P', '1', 'H'] = .error .syntax := by decide +kernel
+example : convert ['1', '.', '5', '.', '5', 's'] = .error .syntax := by decide +kernel
+example : convert ['P', 'T', '1', ',', '5', ',', '5', 'S'] = .error .syntax := by decide +kernel
 
 /-- **timestr is the inverse of convert, integers**: for every natural number of seconds and every
     separator made of whitespace, `convert(timestr(n, sep)) = n` exactly. -/
@@ -383,6 +460,12 @@ theorem negative_to_zero (q : Rat) (k : Kind) :
 theorem negative_number_is_zero (q : Rat) (k : Kind) (hq : q < 0) :
     timePeriod (.atom (.num q k)) = .ok (some 0) := by
   rw [negative_to_zero, if_pos hq]
+
+/-- non-negative numbers pass through unchanged – ints, floats and also bools (the code converts
+    every `int`, hence also `True`/`False`, with `float()`; bools are not refused) -/
+theorem period_number_identity (q : Rat) (k : Kind) (hq : 0 ≤ q) :
+    timePeriod (.atom (.num q k)) = .ok (some q) := by
+  rw [negative_to_zero, if_neg (Rat.not_lt.mpr hq)]
 
 /-- `None` stays `None` -/
 theorem none_to_none : timePeriod Val.none = .ok none := rfl
